@@ -1062,6 +1062,13 @@ func checkRemoveAllComposite(c *Ctx, rule string) {
 		delete(src, "call:Lstat")
 		src["call:Stat"] = true
 	}
+	// a variant that removes the (now empty) directory with RemoveDirectory, or a file with removeFile, is as good
+	for _, alt := range []string{"call:RemoveDirectory", "call:removeFile"} {
+		if src[alt] {
+			delete(src, alt)
+			src["call:Remove"] = true
+		}
+	}
 	same := len(src) == len(want)
 	for k := range src {
 		if !want[k] {
